@@ -5,7 +5,7 @@ PROP = dict(
     race=False,
     trusted=["bbolt: each walletdb.Update is atomic and durable on return", "a crashed write leaves any byte prefix of the data at the end of the file; ftruncate is atomic",
              "double-SHA256 is injective (hashes are interned ids)"],
-    assumptions=["callers' contract as for C07", "crashes during start-up reconciliation itself are not modelled; the first-time initialisation is modelled with every torn length of its two file writes and at its index-transaction boundaries, including restarts that are killed again (C08_first_init: holds since the repair resetInterruptedInit)",
+    assumptions=["callers' contract as for C07", "a start that is itself killed is modelled step by step (openStoreR/reopenR: index transaction, trim, reset of an interrupted first initialisation, genesis write at every torn length, its index transaction, reconciling truncate) and proved recoverable any number of times in a row (C08_restart_killed, C08_first_init); I/O errors (as opposed to crashes) during start-up make the constructors fail and are not constrained",
                  "the header-import and reorganisation arms are sequences of the store operations modelled here (write blocks; roll back filter store then block store per height; write filter headers): their crash points are the union of the modelled ones"],
     level="Kernel-checked theorem C08_recover: for EVERY durable state representing any log, every store operation (append, rollbacks, the block manager's multi-store rollback) under the callers' contract, and every crash point (before any durable step, or inside a file append after any number of bytes), the restart succeeds and the reopened stores represent exactly the log before or after the interrupted operation (for the multi-step rollback: a log it passes through), with the filter headers not ahead of the block headers (C08_recovered_consistent) and further operations behaving as on a fresh store (C08_resume). The proof goes through reopen_ahead: start-up reconciliation maps every state whose files are ahead of the index back to the indexed log. Tied to /repo by the regenerated step-order facts (C08_source_shape: index-before-file on rollback, file-before-index on append, trim at open, filter store rolled back first) and by crashing the real stores at every durable step (panic injected in File.Write/Truncate and DB.Update, torn lengths of every class) and reopening them.",
     ref="DESIGN.md section 7 C08",
